@@ -266,7 +266,7 @@ func ReadResponse(r io.Reader, tcpID *api.TcpID, counterPair *api.CounterPair, c
 			Request: api.GenericMessage{
 				IsRequest:   true,
 				CaptureTime: reqResPair.Request.CaptureTime,
-				CaptureSize: int(reqResPair.Request.Size),
+				CaptureSize: int(reqResPair.Request.Size) + 4, // the message and its 4-byte size prefix
 				Payload: KafkaPayload{
 					Data: &KafkaWrapper{
 						Method:  apiNames[apiKey],
@@ -278,7 +278,7 @@ func ReadResponse(r io.Reader, tcpID *api.TcpID, counterPair *api.CounterPair, c
 			Response: api.GenericMessage{
 				IsRequest:   false,
 				CaptureTime: reqResPair.Response.CaptureTime,
-				CaptureSize: int(reqResPair.Response.Size),
+				CaptureSize: int(reqResPair.Response.Size) + 4, // the message and its 4-byte size prefix
 				Payload: KafkaPayload{
 					Data: &KafkaWrapper{
 						Method:  apiNames[apiKey],
